@@ -32,6 +32,12 @@ type diffResult struct {
 	Viol   []Violation `json:"viol,omitempty"`
 	Checks int         `json:"checks"`
 	WallMs int64       `json:"wall_ms"`
+	// TimingUnsafe: an operation may have reached the server inside the expiry window of the last
+	// write (the process was held up): the sequence gave no verdict from that operation on
+	TimingUnsafe bool `json:"timing_unsafe,omitempty"`
+	// Coalesced: versions the server never delivered to the watcher because a later version of the
+	// key had superseded them (history 1)
+	Coalesced int `json:"coalesced,omitempty"`
 }
 
 const diffMaxAge = 600 * time.Millisecond
@@ -154,6 +160,11 @@ func runDiff(js nats.JetStreamContext, bucket string, seed uint64, nops int) *di
 				bad("diff-watch-failed", err.Error())
 			} else {
 				w = ww
+				if el := now() - lastWrite; el > diffMaxAge/2 && el < 3*diffMaxAge/2 {
+					// (held up around the Watch call: what the server sent as the key's current value and
+					// what the model holds at this later moment may legitimately differ)
+					res.TimingUnsafe = true
+				}
 				if v := model.Last("ka", now()); v != nil {
 					wantEv = append(wantEv, evStr(v))
 				}
@@ -172,8 +183,12 @@ func runDiff(js nats.JetStreamContext, bucket string, seed uint64, nops int) *di
 				time.Sleep(30 * time.Millisecond)
 			}
 		}
+		if res.TimingUnsafe {
+			break
+		}
 		step++
 		tn := now()
+		lastWriteBefore := lastWrite
 		var desc, got, want string
 		wr := writer{inst: -1, op: -1}
 		switch r.Intn(9) {
@@ -246,6 +261,14 @@ func runDiff(js nats.JetStreamContext, bucket string, seed uint64, nops int) *di
 			time.Sleep(2 * diffMaxAge)
 			got, want = "-", "-"
 		}
+		if el := now() - lastWriteBefore; el > diffMaxAge/2 && el < 3*diffMaxAge/2 && desc != "sleep past MaxAge" {
+			// the operation was meant to run well before (or well after) the expiry of the last write,
+			// but this process was held up (CPU contention) and it may have reached the server inside
+			// the window in which server and model can legitimately disagree about expiry: the
+			// precondition of the comparison did not hold for this sequence; no verdict from here on
+			res.TimingUnsafe = true
+			break
+		}
 		res.Checks++
 		res.Ops = append(res.Ops, desc+" -> "+got)
 		if got != want {
@@ -253,8 +276,22 @@ func runDiff(js nats.JetStreamContext, bucket string, seed uint64, nops int) *di
 			break
 		}
 	}
+	if w != nil && res.TimingUnsafe {
+		w.Stop()
+		w = nil
+	}
 	if w != nil {
 		time.Sleep(150 * time.Millisecond)
+		// (notifications are asynchronous: give a starved process up to 3 s to receive what the model expects)
+		for waited := time.Duration(0); waited < 3*time.Second; waited += 20 * time.Millisecond {
+			evMu.Lock()
+			n := len(gotEv)
+			evMu.Unlock()
+			if n >= len(wantEv) {
+				break
+			}
+			time.Sleep(20 * time.Millisecond)
+		}
 		w.Stop()
 		time.Sleep(50 * time.Millisecond)
 		evMu.Lock()
@@ -262,7 +299,40 @@ func runDiff(js nats.JetStreamContext, bucket string, seed uint64, nops int) *di
 		evMu.Unlock()
 		wnt := strings.Join(wantEv, " | ")
 		res.Checks++
-		if g != wnt && len(res.Viol) == 0 {
+		// A bucket with history 1 keeps one message per key: a version that is superseded before the
+		// server has delivered it to a watcher is gone and is never delivered (seen with the real
+		// server: an update followed at once by a delete arrives as the delete alone). So: what was
+		// received is what the model expects with, possibly, versions left out that a later version
+		// of the key superseded - never the last one, never the initial value or the marker, nothing
+		// extra, nothing out of order.
+		evMu.Lock()
+		got := append([]string(nil), gotEv...)
+		evMu.Unlock()
+		ok, skipped := true, 0
+		mk := 0 // index of the marker in wantEv
+		for i, e := range wantEv {
+			if e == "marker" {
+				mk = i
+			}
+		}
+		gi := 0
+		for wi, e := range wantEv {
+			if gi < len(got) && got[gi] == e {
+				gi++
+				continue
+			}
+			if wi > mk && wi < len(wantEv)-1 {
+				skipped++ // superseded by wantEv[wi+1] before it was delivered
+				continue
+			}
+			ok = false
+			break
+		}
+		if gi != len(got) {
+			ok = false
+		}
+		res.Coalesced = skipped
+		if !ok && len(res.Viol) == 0 {
 			bad("watch-events-differ-from-reference-model", fmt.Sprintf("watch on ka: received [%s], reference model [%s]; ops: %v", g, wnt, res.Ops))
 		}
 	}
